@@ -34,12 +34,37 @@ RULE = ('next-URL strings composed from a component grammar  ws scheme slashes u
         'services under internal.<domain>). Oracle (one-directional): if validate_next_page_url returns, the WHATWG '
         'resolution of the string against the auth service origin has scheme http/https and a host in the configured set. '
         'Non-trivial: the input is ACCEPTED by the repo function and is not byte-equal to "https://<service host>" + a '
-        'plain path; distinct by (config, string).')
+        'plain path; distinct by (config, string). '
+        '(iv) request SEQUENCES of one browser through the real route handlers GET /login, /signup, /oauth2callback, /creating and '
+        'POST /logout (taken from auth.auth.routes) over a stand-in for aiohttp_session whose middleware saves a changed session '
+        'also when the handler raises web.HTTPException, a fake identity provider (google-like: code only; azure-like: state '
+        'checked) and fake users/sessions rows: 1-3 login attempts, each = one or two /login|/signup starts with a `next` drawn '
+        'from the same grammar (none, canonical, accepted-shaped, arbitrary, plainly foreign), optional /creating, /logout, '
+        'cookie replay/drop, account activation in between, then the provider\'s answer for an active / creating / deleted / unknown '
+        '/ other-organisation identity, then /creating visits. Oracle: EVERY 3xx Location the service emits other than the '
+        'authorization URL the provider issued resolves (same WHATWG resolver) to http(s) on a configured host, whatever earlier '
+        'requests of the session were answered (400, 401, 500 ...). A Location the validator itself accepts keeps the single-string '
+        'signature; one it rejects is seq-redirect-to-unvalidated-url. Non-trivial sequence: a login flow completes with a redirect '
+        'to `next` after a client-supplied next or after an error response.')
 ASSUMPTIONS = ['browser behaviour = WHATWG URL Standard basic URL parser with the auth service https origin as base URL',
                'HAIL_DOMAIN=hail.test, location external; default namespace and one non-default namespace (dev)',
                'a host with a trailing dot or different case than configured is only compared after WHATWG host normalisation '
                '(lower-casing, percent-decoding, NFKC/IDNA dot mapping)']
-TRUSTED = ['whatwg_target resolver in checks/c29.py (hand-written from the URL Standard; IDNA mapping approximated by NFKC + '
+ASSUMPTIONS += ['aiohttp_session (pinned 2.12.1) is not installed here and its source/docs cannot be consulted offline; the stand-in follows '
+                'the package\'s middleware as I know it: `try: response = await handler(request) except web.HTTPException as exc: '
+                'response = exc; raise_response = True` and then `if session._changed: await storage.save_session(request, response, '
+                'session)` before re-raising - i.e. a session modified by a handler that then raises an HTTPException (400/401/302) '
+                'IS saved; only a non-HTTP exception (500) loses it. Session.__setitem__/__delitem__/pop mark it changed; an empty '
+                'session deletes the cookie',
+                'the encrypted session cookie is modelled as an opaque handle: a client can keep, drop and replay any cookie it was ever '
+                'given but cannot read or forge one',
+                'a client can obtain a redeemable identity-provider code for any identity it controls and present it to /oauth2callback '
+                '(GoogleFlow.receive_callback redeems request.query["code"] and never compares the state); the azure-like provider '
+                'additionally requires the state of the stored flow',
+                'the csrf and metrics middlewares are left out of the chain (they do not touch the session or `next`); the Location '
+                'judged is the header value the installed aiohttp actually puts on web.HTTPFound']
+TRUSTED = ['aiohttp_session stand-in, FakeDb (users/sessions rows behind the handlers\' statements), FakeFlow in checks/c29.py',
+           'whatwg_target resolver in checks/c29.py (hand-written from the URL Standard; IDNA mapping approximated by NFKC + '
            'lower-case + ideographic-dot mapping + removal of ignorable code points)']
 
 SERVICES = ['batch', 'auth', 'ci', 'monitoring']
@@ -240,6 +265,8 @@ def is_canonical(cfg, url):
 
 def check_case(case):
     """case = {'cfg': name, 'url': str} -> (nontrivial, classes, failures)"""
+    if case.get('seq'):
+        return check_seq(case)
     cfg, url = case['cfg'], case['url']
     c = CONFIGS[cfg]
     got, det = repo_accepts(cfg, url)
@@ -343,6 +370,9 @@ def plan(tier):
     specs.append(dict(kind='hyp', cfg='dev', n=n, edits=2))
     specs.append(dict(kind='hyp', cfg='default', n=n, edits=0))
     specs.append(dict(kind='hyp_accepted', cfg='default', n=n))
+    specs.append(dict(kind='hyp_seq', cfg='default', n=n // 5))
+    specs.append(dict(kind='hyp_seq', cfg='default', n=n // 5))
+    specs.append(dict(kind='hyp_seq', cfg='dev', n=n // 5))
     if tier == 'thorough':
         for i in range(4):
             specs.append(dict(kind='atheris', runs=1500000, idx=i, cfg='default' if i < 3 else 'dev'))
@@ -436,6 +466,557 @@ def _strategy_accepted(cfg):
     return build()
 
 
+# ===================================================================================================== request sequences
+# The validator is only half of the property: what a browser finally follows is the Location header of the redirect that ends a
+# login flow, and the value redirected to travels through the cookie session between requests.  This part drives the REAL route
+# handlers of auth.auth (looked up in auth.auth.routes by method and path) with generated request sequences of one browser.
+SESSION_KEY = 'aiohttp_session'
+STORAGE_KEY = 'aiohttp_session_storage'
+COOKIE = 'gcp_session'
+_CREATED = 1700000000
+
+
+def _session_lib():
+    """In-process stand-in for aiohttp_session 2.12 (absent here): Session with change tracking, get_session/new_session, a storage
+    whose cookie value is an opaque handle of the JSON blob (stands for EncryptedCookieStorage: the client can keep, drop and
+    replay cookies but not read or forge them), and the session middleware, which saves a changed session into the response ALSO
+    WHEN THE HANDLER RAISES web.HTTPException (it catches the exception, saves, re-raises)."""
+    import types
+    from collections.abc import MutableMapping
+    from aiohttp import web
+
+    class Session(MutableMapping):
+        def __init__(self, identity, *, data, new, max_age=None):
+            self._changed = False
+            self._mapping = {}
+            self._identity = identity if data != {} else None
+            self._new = new if data != {} else True
+            self._max_age = max_age
+            created = data.get('created') if data else None
+            session_data = data.get('session') if data else None
+            self._created = _CREATED if (self._new or created is None) else created
+            if session_data is not None:
+                self._mapping.update(session_data)
+
+        new = property(lambda self: self._new)
+        identity = property(lambda self: self._identity)
+        created = property(lambda self: self._created)
+        empty = property(lambda self: not bool(self._mapping))
+        max_age = property(lambda self: self._max_age)
+
+        def changed(self):
+            self._changed = True
+
+        def invalidate(self):
+            self._changed = True
+            self._mapping = {}
+
+        def set_new_identity(self, identity):
+            if not self._new:
+                raise RuntimeError('Can\'t change identity for a session which is not new')
+            self._identity = identity
+
+        def __len__(self):
+            return len(self._mapping)
+
+        def __iter__(self):
+            return iter(self._mapping)
+
+        def __contains__(self, key):
+            return key in self._mapping
+
+        def __getitem__(self, key):
+            return self._mapping[key]
+
+        def __setitem__(self, key, value):
+            self._mapping[key] = value
+            self._changed = True
+            self._created = _CREATED
+
+        def __delitem__(self, key):
+            del self._mapping[key]
+            self._changed = True
+            self._created = _CREATED
+
+    class Storage:
+        def __init__(self):
+            self.blobs = {}
+            self.saves_on_http_exception = 0
+
+        async def load_session(self, request):
+            tok = request.cookies.get(COOKIE)
+            if tok is None or tok not in self.blobs:
+                return Session(None, data=None, new=True)
+            return Session(None, data=json.loads(self.blobs[tok]), new=False)
+
+        async def new_session(self):
+            return Session(None, data=None, new=True)
+
+        async def save_session(self, request, response, session):
+            if session.empty:
+                response.del_cookie(COOKIE)
+                return
+            tok = f'c{len(self.blobs)}'
+            self.blobs[tok] = json.dumps({'created': session.created, 'session': dict(session._mapping)})
+            response.set_cookie(COOKIE, tok, secure=True, httponly=True, samesite='Lax')
+
+    async def get_session(request):
+        session = request.get(SESSION_KEY)
+        if session is None:
+            storage = request.get(STORAGE_KEY)
+            if storage is None:
+                raise RuntimeError('Install aiohttp_session middleware in your aiohttp.web.Application')
+            session = await storage.load_session(request)
+            request[SESSION_KEY] = session
+        return session
+
+    async def new_session(request):
+        storage = request.get(STORAGE_KEY)
+        if storage is None:
+            raise RuntimeError('Install aiohttp_session middleware in your aiohttp.web.Application')
+        session = await storage.new_session()
+        request[SESSION_KEY] = session
+        return session
+
+    def session_middleware(storage):
+        async def factory(request, handler):
+            request[STORAGE_KEY] = storage
+            raise_response = False
+            try:
+                response = await handler(request)
+            except web.HTTPException as exc:
+                response = exc
+                raise_response = True
+            if not isinstance(response, (web.Response, web.HTTPException)):
+                return response                      # websocket / streaming
+            session = request.get(SESSION_KEY)
+            if session is not None and session._changed:
+                if raise_response and response.status >= 400:
+                    storage.saves_on_http_exception += 1
+                await storage.save_session(request, response, session)
+            if raise_response:
+                raise response
+            return response
+        return factory
+
+    lib = types.ModuleType('aiohttp_session')
+    lib.Session, lib.get_session, lib.new_session, lib.session_middleware = Session, get_session, new_session, session_middleware
+    lib.SESSION_KEY, lib.STORAGE_KEY, lib.Storage = SESSION_KEY, STORAGE_KEY, Storage
+    lib.setup = lambda app, storage: app.middlewares.append(session_middleware(storage))
+    return lib
+
+
+class _UnsupportedSQL(Exception):
+    pass
+
+
+class FakeDb:
+    """The users / sessions rows of the auth database behind the few statements the login handlers issue (anything else is a
+    harness error, not a verdict)."""
+
+    USER_COLS = ('id', 'state', 'username', 'login_id', 'display_name', 'is_developer', 'is_service_account',
+                 'tokens_secret_name', 'hail_identity', 'hail_identity_uid', 'hail_credentials_secret_name', 'namespace_name',
+                 'trial_bp_name', 'last_activated')
+
+    def __init__(self, users):
+        self.users = []
+        self.sessions = {}
+        for u in users:
+            self._add_user(dict(u))
+
+    def _add_user(self, row):
+        full = {c: None for c in self.USER_COLS}
+        full.update(is_developer=0, is_service_account=0)
+        full.update(row)
+        full['id'] = len(self.users) + 1
+        self.users.append(full)
+        return full['id']
+
+    @staticmethod
+    def _args(args):
+        if args is None:
+            return []
+        return list(args) if isinstance(args, (tuple, list)) else [args]
+
+    @staticmethod
+    def _where(text, args):
+        """col = %s | col = 'lit' | ( .. ) joined by AND / OR  ->  predicate over a users row"""
+        toks = re.findall(r"\(|\)|\band\b|\bor\b|(?:users\.)?\w+\s*=\s*(?:%s|'[^']*')", text, re.I)
+        if ''.join(toks).replace(' ', '').lower() != text.replace(' ', '').lower():
+            raise _UnsupportedSQL(text)
+        args = list(args)
+        pos = [0]
+
+        def atom():
+            t = toks[pos[0]]
+            pos[0] += 1
+            if t == '(':
+                f = disj()
+                pos[0] += 1
+                return f
+            col, val = [x.strip() for x in t.split('=', 1)]
+            col = col.split('.')[-1]
+            v = args.pop(0) if val == '%s' else val[1:-1]
+            return lambda r: r[col] is not None and r[col] == v
+
+        def conj():
+            fs = [atom()]
+            while pos[0] < len(toks) and toks[pos[0]].lower() == 'and':
+                pos[0] += 1
+                fs.append(atom())
+            return lambda r: all(f(r) for f in fs)
+
+        def disj():
+            fs = [conj()]
+            while pos[0] < len(toks) and toks[pos[0]].lower() == 'or':
+                pos[0] += 1
+                fs.append(conj())
+            return lambda r: any(f(r) for f in fs)
+        return disj()
+
+    def _run(self, sql, args):
+        s = ' '.join(sql.split()).rstrip(';').strip()
+        low = s.lower()
+        args = self._args(args)
+        if low.startswith('select') and 'inner join sessions' in low and 'sessions.session_id = %s' in low:
+            sess = self.sessions.get(args[0])
+            return [dict(u) for u in self.users if sess and u['id'] == sess['user_id'] and u['state'] == 'active']
+        m = re.match(r'select (?:users\.)?\* from users where (.+?)(?: lock in share mode| for update)?$', s, re.I)
+        if m:
+            pred = self._where(m.group(1), args)
+            return [dict(u) for u in self.users if pred(u)]
+        m = re.match(r'insert into users \((.+?)\) values \((.+?)\)$', s, re.I)
+        if m:
+            cols = [c.strip(' `') for c in m.group(1).split(',')]
+            if len(cols) != len(args):
+                raise _UnsupportedSQL(s)
+            return self._add_user(dict(zip(cols, args)))
+        m = re.match(r'insert into sessions \((.+?)\) values \((.+?)\)$', s, re.I)
+        if m:
+            cols = [c.strip(' `') for c in m.group(1).split(',')]
+            row = dict(zip(cols, args))
+            self.sessions[row['session_id']] = row
+            return None
+        if re.match(r'update (users|sessions) set (last_activated|created) = ', s, re.I):
+            return 1
+        m = re.match(r'delete from sessions where session_id = %s$', s, re.I)
+        if m:
+            self.sessions.pop(args[0], None)
+            return None
+        raise _UnsupportedSQL(s)
+
+    # gear.Database / Transaction surface used by the handlers
+    async def select_and_fetchall(self, sql, args=None, query_name=None):
+        for r in self._run(sql, args):
+            yield r
+
+    execute_and_fetchall = select_and_fetchall
+
+    async def select_and_fetchone(self, sql, args=None, query_name=None):
+        rows = self._run(sql, args)
+        return rows[0] if rows else None
+
+    execute_and_fetchone = select_and_fetchone
+
+    async def just_execute(self, sql, args=None):
+        self._run(sql, args)
+
+    async def execute_insertone(self, sql, args=None, query_name=None):
+        return self._run(sql, args)
+
+    async def execute_update(self, sql, args=None, query_name=None):
+        return self._run(sql, args)
+
+    def start(self, read_only=False):
+        db = self
+
+        class _Ctx:
+            async def __aenter__(self):
+                return db
+
+            async def __aexit__(self, *a):
+                return False
+        return _Ctx()
+
+
+ORG = 'x.org'
+IDP = 'https://idp.test/authorize'
+
+
+class FakeFlow:
+    """Identity provider + hailtop.auth.Flow.  kind 'google': the callback redeems the `code` only (GoogleFlow.receive_callback passes
+    code= to fetch_token and never looks at the request's state); kind 'azure': the request's state must equal the stored flow's."""
+
+    def __init__(self, kind):
+        self.kind = kind
+        self.issued = []            # authorization URLs handed out
+
+    def organization_id(self):
+        return ORG
+
+    def initiate_flow(self, redirect_uri):
+        state = f's{len(self.issued)}'
+        url = f'{IDP}?state={state}'
+        self.issued.append(url)
+        return {'authorization_url': url, 'redirect_uri': redirect_uri, 'state': state}
+
+    def receive_callback(self, request, flow_dict):
+        from hailtop.auth.flow import FlowResult
+        code = request.query['code']
+        if not code.startswith('ok:'):
+            raise ValueError('identity provider refused the code')
+        if self.kind == 'azure' and request.query.get('state') != flow_dict['state']:
+            raise ValueError('state mismatch')
+        email = code[3:]
+        return FlowResult(email, email, email.split('@')[1], {})
+
+    @staticmethod
+    async def get_identity_uid_from_access_token(session, access_token, *, oauth2_client):
+        return None
+
+
+_seq_env = None
+
+
+def seq_env():
+    global _seq_env
+    if _seq_env is None:
+        e = env()
+        A = e['A']
+        web = e['web']
+        import gear.auth as GA
+        import web_common.web_common as WC
+        lib = _session_lib()
+        for mod in (A, GA, WC):
+            if hasattr(mod, 'aiohttp_session'):
+                mod.aiohttp_session = lib
+        aj = getattr(WC, 'aiohttp_jinja2', None)
+        if isinstance(aj, hostenv.StubModule):          # jinja2 is absent: pages are rendered as their template name
+            aj.render_template = lambda file, request, context, status=200: web.Response(text=file, status=status)
+        table = {}
+        for r in A.routes:
+            if hasattr(r, 'handler') and hasattr(r, 'path'):
+                table.setdefault((r.method.upper(), r.path), r.handler)
+        need = [('GET', '/login'), ('GET', '/signup'), ('GET', '/oauth2callback'), ('GET', '/creating'), ('POST', '/logout')]
+        missing = [k for k in need if k not in table]
+        if missing:
+            raise RuntimeError(f'auth.auth.routes has no handler for {missing}')
+        _seq_env = dict(lib=lib, table=table, A=A, web=web)
+    return _seq_env
+
+
+class Browser:
+    def __init__(self):
+        self.cookies = {}
+        self.history = [None]       # every session cookie value this browser has held (None = no cookie)
+        self.seen_state = None
+
+
+async def _serve(se, world, browser, method, path, query):
+    """One request through  session middleware -> handler  (the csrf and metrics middlewares do not touch the session).
+    -> (status, Location or None, saved_on_error: bool)"""
+    import urllib.parse
+    from aiohttp.test_utils import make_mocked_request
+    web = se['web']
+    qs = urllib.parse.urlencode(query, quote_via=urllib.parse.quote)
+    headers = {'Host': 'auth.hail.test'}
+    if browser.cookies:
+        headers['Cookie'] = '; '.join(f'{k}={v}' for k, v in browser.cookies.items())
+    request = make_mocked_request(method, path + ('?' + qs if qs else ''), headers=headers, app=world['app'])
+    for k, v in query.items():
+        if request.query.get(k) != v:
+            return None, None, False                 # the string does not survive the query encoding: not a request a client can make
+    before = world['storage'].saves_on_http_exception
+    mw = se['lib'].session_middleware(world['storage'])
+    try:
+        response = await mw(request, se['table'][(method, path)])
+    except web.HTTPException as exc:
+        response = exc
+    except _UnsupportedSQL:
+        raise
+    except Exception as exc:      # aiohttp answers 500; the session middleware does not save
+        tb = exc.__traceback__
+        while tb.tb_next is not None:
+            tb = tb.tb_next
+        if tb.tb_frame.f_code.co_filename == __file__:     # raised inside this file's stand-ins: a harness defect, not a 500
+            raise
+        return 500, None, False
+    for name, morsel in response.cookies.items():
+        if morsel.value == '' or str(morsel.get('max-age')) == '0':
+            browser.cookies.pop(name, None)
+        else:
+            browser.cookies[name] = morsel.value
+    cur = browser.cookies.get(COOKIE)
+    if browser.history[-1] != cur:
+        browser.history.append(cur)
+    return response.status, response.headers.get('Location'), world['storage'].saves_on_http_exception > before
+
+
+def _judge_location(case, cfgname, loc, where, fails, cls):
+    """The single-string oracle applied to a Location the service emitted."""
+    c = CONFIGS[cfgname]
+    scheme, host = whatwg_target(loc, c['base_host'])
+    if scheme in ('http', 'https') and host in c['hosts']:
+        return True
+    validator_accepts = repo_accepts(cfgname, loc)[0] == 'accept'
+    if validator_accepts:
+        # the validator itself lets this string through: that is the single-string part's finding, keep its signature
+        sig = ('accepts-non-http-scheme' if scheme not in ('http', 'https') else
+               'accepts-unparseable-url' if host is None else 'accepts-foreign-host')
+        fails.append((sig, 'an accepted next URL resolves to one of the batch/auth/ci/monitoring hosts',
+                      f'{where}: Location {loc!r} (config {cfgname}) is accepted by validate_next_page_url; a browser goes to '
+                      f'{scheme}://{host}'))
+    else:
+        cls.add('seq_redirect_to_unvalidated_url')
+        fails.append(('seq-redirect-to-unvalidated-url',
+                      'every redirect that ends a login flow goes to a URL validate_next_page_url accepts and a browser resolves to a '
+                      'Hail host, whatever requests the same browser session made before',
+                      f'{where}: 3xx Location {loc!r} (config {cfgname}); validate_next_page_url rejects that string and a browser '
+                      f'goes to {scheme}://{host}, not one of {c["hosts"]}'))
+    return False
+
+
+async def _run_seq(case):
+    se = seq_env()
+    A, web = se['A'], se['web']
+    cfgname = case['cfg']
+    saved_dc = A.deploy_config
+    A.deploy_config = env()['cfgs'][cfgname]
+    cls, fails = set(), []
+    nontrivial = False
+    try:
+        app = web.Application()
+        db = FakeDb(case['users'])
+        flow = FakeFlow(case.get('flow', 'google'))
+        app[A.AppKeys.DB] = db
+        app[A.AppKeys.FLOW_CLIENT] = flow
+        app[A.AppKeys.CLIENT_SESSION] = None
+        app[A.AppKeys.HAILCTL_CLIENT_CONFIG] = {'installed': {'client_id': 'hailctl'}}
+        world = dict(app=app, storage=se['lib'].Storage())
+        browser = Browser()
+        own = {A.deploy_config.external_url('auth', ''), A.deploy_config.external_url('auth', '/creating')}
+        last_start = None           # (status of the latest /login or /signup, its next)
+        had_error = False
+        trace = []
+        for i, op in enumerate(case['ops']):
+            kind = op['op']
+            if kind in ('login', 'signup'):
+                q = {} if op.get('next') is None else {'next': op['next']}
+                r = await _serve(se, world, browser, 'GET', '/' + kind, q)
+            elif kind == 'idp':
+                q = {'code': ('ok:' if op.get('ok', True) else 'no:') + op['who']}
+                st_ = {'seen': browser.seen_state, 'wrong': 'zz', 'none': None}[op.get('state', 'seen')]
+                if st_ is not None:
+                    q['state'] = st_
+                r = await _serve(se, world, browser, 'GET', '/oauth2callback', q)
+            elif kind == 'creating':
+                r = await _serve(se, world, browser, 'GET', '/creating', {})
+            elif kind == 'logout':
+                r = await _serve(se, world, browser, 'POST', '/logout', {})
+            elif kind == 'activate':        # the driver finishes creating the account (environment step, not a request)
+                for u in db.users:
+                    if u['state'] == 'creating':
+                        u['state'] = 'active'
+                cls.add('seq_account_activated_between_requests')
+                continue
+            elif kind == 'cookie':          # the browser presents a session cookie it held earlier (or none)
+                v = browser.history[op['k'] % len(browser.history)]
+                if v is None:
+                    browser.cookies.pop(COOKIE, None)
+                else:
+                    browser.cookies[COOKIE] = v
+                cls.add('seq_cookie_replayed_or_dropped')
+                continue
+            else:
+                raise ValueError(kind)
+            status, loc, saved_on_error = r
+            if status is None:
+                cls.add('seq_op_skipped_query_not_encodable')
+                continue
+            trace.append(f'{kind}->{status}')
+            cls.add(f'seq_{kind}_{status}')
+            if saved_on_error:
+                cls.add('seq_session_saved_with_error_response')
+            if kind in ('login', 'signup'):
+                if last_start is not None and status >= 400 and last_start[0] < 400:
+                    cls.add('seq_rejected_start_after_accepted_start')
+                last_start = (status, op.get('next'))
+            if kind == 'idp' and last_start is not None and last_start[0] >= 400:
+                cls.add('seq_callback_after_rejected_start')
+            if loc is not None and 300 <= status < 400:
+                if loc in flow.issued:
+                    cls.add('seq_redirect_to_identity_provider')
+                    browser.seen_state = loc.rsplit('=', 1)[-1]
+                else:
+                    ok = _judge_location(case, cfgname, loc, f'request #{i + 1} ({" ".join(trace)})', fails, cls)
+                    if kind in ('idp', 'creating') and loc not in own:
+                        cls.add('seq_flow_completed_redirect_to_next')
+                        custom = any(o.get('next') is not None for o in case['ops'][:i] if o['op'] in ('login', 'signup'))
+                        if custom:
+                            cls.add('seq_flow_completed_custom_next')
+                        if had_error:
+                            cls.add('seq_flow_completed_after_error_response')
+                        if kind == 'creating':
+                            cls.add('seq_flow_completed_via_creating_page')
+                        nontrivial = nontrivial or custom or had_error or not ok
+            had_error = had_error or status >= 400
+    finally:
+        A.deploy_config = saved_dc
+    cls.add(f'seq_cfg_{cfgname}')
+    cls.add(f'seq_flow_{case.get("flow", "google")}')
+    dedup = {}
+    for f in fails:
+        dedup.setdefault(f[0], f)
+    return nontrivial, sorted(cls), list(dedup.values())
+
+
+_seq_loop = None
+
+
+def check_seq(case):
+    global _seq_loop
+    import asyncio
+    if _seq_loop is None:
+        _seq_loop = asyncio.new_event_loop()
+    return _seq_loop.run_until_complete(_run_seq(case))
+
+
+def _seq_strategy(cfg):
+    from hypothesis import strategies as st
+    url_any = _strategy(cfg, 2).map(lambda c: c['url'])
+    url_acc = _strategy_accepted(cfg).map(lambda c: c['url'])
+    hosts = CONFIGS[cfg]['hosts']
+    plain = st.builds(lambda h, p: f'https://{h}{p}', st.sampled_from(hosts), st.sampled_from(['', '/', '/batches/1', '/user']))
+    evil = st.sampled_from(['https://evil.com/', '//evil.com', 'https://evil.com/?https://' + hosts[0] + '/', 'javascript:alert(1)',
+                            'https://' + hosts[0] + '.evil.com/', 'http://evil.com\\@' + hosts[0] + '/', '/\\evil.com'])
+    nxt = st.one_of(st.none(), plain, plain, url_acc, url_any, url_any, evil)
+    people = ['a@x.org', 'a@x.org', 'a@x.org', 'c@x.org', 'c@x.org', 'n@x.org', 'n@x.org', 'd@x.org', 'm@other.org']
+    start = st.builds(lambda k, n: dict(op=k, next=n), st.sampled_from(['login', 'login', 'signup']), nxt)
+    idp = st.builds(lambda w, ok, s: dict(op='idp', who=w, ok=ok, state=s), st.sampled_from(people),
+                    st.sampled_from([True] * 7 + [False]), st.sampled_from(['seen'] * 6 + ['wrong', 'none']))
+    other = st.one_of(st.just(dict(op='creating')), st.just(dict(op='activate')), st.just(dict(op='logout')),
+                      st.builds(lambda k: dict(op='cookie', k=k), st.integers(0, 6)), start, idp)
+
+    @st.composite
+    def build(draw):
+        ops = []
+        for _ in range(draw(st.integers(1, 3))):
+            # a login attempt: one or two starts (the later one may be answered differently), then the identity provider's answer
+            ops.append(draw(start))
+            if draw(st.integers(0, 2)) == 0:
+                ops.append(draw(start))
+            ops.extend(draw(st.lists(other, max_size=2)))
+            ops.append(draw(idp))
+            if draw(st.booleans()):
+                ops.extend(draw(st.lists(st.sampled_from([dict(op='creating'), dict(op='activate'), dict(op='creating')]),
+                                         min_size=1, max_size=3)))
+        users = [dict(login_id='a@x.org', username='a', state='active'),
+                 dict(login_id='c@x.org', username='c', state=draw(st.sampled_from(['creating', 'creating', 'active']))),
+                 dict(login_id='d@x.org', username='d', state=draw(st.sampled_from(['deleted', 'deleting', 'inactive'])))]
+        return dict(seq=True, cfg=cfg, flow=draw(st.sampled_from(['google', 'google', 'azure'])), users=users, ops=ops)
+    return build()
+
+
 def run_shard(spec, seed, tier):
     res = Result()
     env()
@@ -446,7 +1027,8 @@ def run_shard(spec, seed, tier):
         _run_atheris(res, spec, seed)
     else:
         from vlib.hyp import search
-        strat = _strategy_accepted(spec['cfg']) if kind == 'hyp_accepted' else _strategy(spec['cfg'], spec['edits'])
+        strat = (_strategy_accepted(spec['cfg']) if kind == 'hyp_accepted' else _seq_strategy(spec['cfg']) if kind == 'hyp_seq'
+                 else _strategy(spec['cfg'], spec['edits']))
         search(res, PROPERTY, strat, check_case, spec['n'], seed, shrink=True)
     return res
 
